@@ -305,28 +305,33 @@ func diffHelpers(c *Ctx) {
 func dateGranularity(c *Ctx, rule string) {
 	timeMethods := func(fname string) map[string]bool {
 		out := map[string]bool{}
-		d := c.decl(rule, fname)
-		if d == nil {
+		if c.decl(rule, fname) == nil {
 			return out
 		}
-		for _, cs := range callsIn(d.pkg, d.fd.Body) {
-			full := cs.callee.FullName()
-			if strings.HasPrefix(full, "(time.Time).") {
-				switch cs.callee.Name() {
-				case "Unix", "UnixNano", "UnixMilli", "UnixMicro", "Equal", "Compare", "Before", "After", "Truncate", "Round", "String", "Format":
-					out[cs.callee.Name()] = true
+		// the function and the unexported helpers of the package it hands its dates to
+		for _, d := range pkgFilter(c.reachDecls(rule, fname), "sbom.") {
+			if d.name != fname && (d.obj == nil || ast.IsExported(d.obj.Name())) {
+				continue
+			}
+			for _, cs := range callsIn(d.pkg, d.fd.Body) {
+				full := cs.callee.FullName()
+				if strings.HasPrefix(full, "(time.Time).") {
+					switch cs.callee.Name() {
+					case "Unix", "UnixNano", "UnixMilli", "UnixMicro", "Equal", "Compare", "Before", "After", "Truncate", "Round", "String", "Format":
+						out[cs.callee.Name()] = true
+					}
 				}
 			}
+			// direct struct comparison of time values
+			ast.Inspect(d.fd.Body, func(x ast.Node) bool {
+				if be, ok := x.(*ast.BinaryExpr); ok && (be.Op == token.EQL || be.Op == token.NEQ) {
+					if t := d.pkg.TypesInfo.TypeOf(be.X); t != nil && t.String() == "time.Time" {
+						out["=="] = true
+					}
+				}
+				return true
+			})
 		}
-		// direct struct comparison of time values
-		ast.Inspect(d.fd.Body, func(x ast.Node) bool {
-			if be, ok := x.(*ast.BinaryExpr); ok && (be.Op == token.EQL || be.Op == token.NEQ) {
-				if t := d.pkg.TypesInfo.TypeOf(be.X); t != nil && t.String() == "time.Time" {
-					out["=="] = true
-				}
-			}
-			return true
-		})
 		return out
 	}
 	enc := timeMethods("sbom.(*Node).flatString")
